@@ -16,10 +16,10 @@ var intrinsics = map[string]intrinsicFn{}
 // packages whose every function is a no-op returning zero values (logging, telemetry)
 var noopPkgs = map[string]bool{
 	"github.com/sirupsen/logrus":                        true,
-	"github.com/ProtonMail/gluon/reporter":              false,
-	"github.com/ProtonMail/gluon/profiling":             false,
-	"github.com/ProtonMail/gluon/observability":         false,
-	"github.com/ProtonMail/gluon/observability/metrics": false,
+	"github.com/ProtonMail/gluon/reporter":              true,
+	"github.com/ProtonMail/gluon/profiling":             true,
+	"github.com/ProtonMail/gluon/observability":         true,
+	"github.com/ProtonMail/gluon/observability/metrics": true,
 	"runtime/pprof":                                     true,
 	"runtime/trace":                                     true,
 	"runtime/debug":                                     true,
